@@ -304,7 +304,11 @@ def recorded(calls, modules, names=("urlsplit", "urljoin", "unquote", "quote", "
 
     def wrap(name, fn):
         def w(*a, **k):
-            r = fn(*a, **k)
+            try:
+                r = fn(*a, **k)
+            except ValueError as ex:      # a raising call is recorded under its own name: "<name>/raise"
+                calls.append((name + "/raise", a, ex))
+                raise
             calls.append((name if not k else name + "/kw", a, r))
             return r
         return w
